@@ -1408,10 +1408,12 @@ def check_routes(case, rep):
 # object histories: several evaluated copies / boundaries made from ONE parent; every one of them (the earlier ones too) and
 # the parent are used afterwards, and used a second time
 
-def make_history_case(ctx, idx):
-    rng = ctx.rng
-    dflt = rng.choice([None, None, "D"])
-    kind = rng.choice(["circle", "sphere", "interval", "par", "uservol", "cut", "translate"])
+def cross_parent(rng, dflt):
+    """one parent that CROSSES the features the statement names: a primitive whose size depends on (t, D) [optionally with a
+    declared default], optionally inside a contained cut / disjoint union, moved by a parameter-dependent translation or a rotation,
+    its boundary, a product with an interval / a parameter-dependent interval / a POINT (initial-time slab), and user-set
+    volumes (number or function of (t, D)) at any level"""
+    kind = rng.choice(["circle", "sphere", "interval", "par"])
 
     def circ(k="circle"):
         n = 2 if k == "circle" else 3
@@ -1421,19 +1423,63 @@ def make_history_case(ctx, idx):
     elif kind == "interval":
         lb = dy(rng, -2, 1)
         node = Node("interval", "y", [PF([c(lb)]), PF([two_param(rng, lb + dy(rng, 0.5, 2))], defaulted=dflt)])
-    elif kind == "par":
+    else:
         o = [dy(rng, -2, 2), dy(rng, -2, 2)]
         node = Node(rng.choice(["par", "tri"]), "x", [PF([c(o[0]), c(o[1])]), PF([("+", c(o[0]), two_param(rng, dy(rng, 1, 3))), c(o[1])], defaulted=dflt),
                                                        PF([c(o[0]), c(o[1] + dy(rng, 1, 3))])])
-    elif kind == "uservol":
-        node = Node("uservol", None, [PF([two_param(rng, dy(rng, 1, 4))], defaulted=dflt)], [circ()])
-    elif kind == "cut":
-        a = circ()
-        node = Node("cut", None, [], [a, inner_shape(rng, a)], dict(contained=True, really_contained=True))
-    else:
-        node = Node("translate", "x", [PF([two_param(rng, 0), c(dy(rng, -1, 1))])], [circ()])
-    if rng.random() < 0.25:
+    var = node.var
+    feats = []
+
+    def uv(n):
+        f = PF([two_param(rng, dy(rng, 1, 4))], defaulted=dflt) if rng.random() < 0.6 else PF([c(dy(rng, 1, 6))])
+        feats.append("uservol")
+        return Node("uservol", None, [f], [n])
+    p_uv = 0.3
+    r = rng.random()
+    if r < 0.2:
+        node = Node("cut", None, [], [node, inner_shape(rng, node)], dict(contained=True, really_contained=True))
+        node.kids[1].pfs[-1].defaulted = dflt if kind in ("circle", "sphere") else None
+        feats.append("cut")
+    elif r < 0.35:
+        far = Node("translate", var, [PF([c(x) for x in FAR[geomgen.DIM[var]]])], [small_prim(rng, var)])
+        node = Node("union", None, [], [node, far], dict(disjoint=True, really_disjoint=True))
+        feats.append("union")
+    if rng.random() < p_uv:
+        node = uv(node)
+    if rng.random() < 0.45:
+        if geomgen.DIM[var] == 2 and rng.random() < 0.4:
+            node = VGen(rng, []).motion(node, var)
+        else:
+            node = Node("translate", var, [PF([two_param(rng, 0)] + [c(dy(rng, -1, 1)) for _ in range(geomgen.DIM[var] - 1)], defaulted=dflt)], [node])
+        feats.append(node.kind)
+        if rng.random() < p_uv:
+            node = uv(node)
+    if rng.random() < 0.3:
         node = Node("bdry", None, [], [node])
+        feats.append("bdry")
+        if rng.random() < p_uv:
+            node = uv(node)
+    r = rng.random()
+    if r < 0.45:
+        if r < 0.15:
+            b = Node("interval", "s", [PF([c(0)]), PF([c(dy(rng, 1, 3))])])
+            feats.append("prod-interval")
+        elif r < 0.3:
+            b = Node("interval", "s", [PF([c(0)]), PF([two_param(rng, dy(rng, 1, 2))], defaulted=dflt)])
+            feats.append("prod-param-interval")
+        else:
+            b = Node("point", "s", [PF([two_param(rng, 0)], defaulted=dflt) if rng.random() < 0.5 else PF([c(dy(rng, -1, 1))])])
+            feats.append("prod-point")
+        node = Node("prod", None, [], [node, b])
+        if rng.random() < 0.6:
+            node = uv(node)
+    return node, feats
+
+
+def make_history_case(ctx, idx):
+    rng = ctx.rng
+    dflt = rng.choice([None, None, "D"])
+    node, feats = cross_parent(rng, dflt)
     first = "t" if dflt != "D" or rng.random() < 0.5 else "D"
     if dflt == "D":
         first = "D"        # binding all non-defaulted arguments evaluates at once with the declared default (C17), see make_default_case
@@ -1448,7 +1494,7 @@ def make_history_case(ctx, idx):
             free = [p for p in ("t", "D") if p not in steps[i]["sigma"]]
             steps.append(dict(op="eval", src=i, sigma={free[0]: [val()]}))        # second stage: I(t=1) then (D=2)
     rows = [{p: [val()] for p in ("t", "D")} for _ in range(rng.choice([1, 2]))]
-    return dict(id=idx, mode="history", dom=node.describe(), params=["t", "D"], steps=steps, envs=rows,
+    return dict(id=idx, mode="history", dom=node.describe(), params=["t", "D"], steps=steps, envs=rows, feats="+".join(sorted(set(feats))) or "plain",
                 density=str(rng.choice([Fr(15, 4), Fr(10), Fr(51, 2)])))
 
 
@@ -1457,8 +1503,19 @@ def check_history(case, rep):
     import torch
     node = geomgen.from_json(case["dom"])
     inp = dict(mode="history", dom=case["dom"], expression=vtokens(node), params=case["params"], steps=case["steps"], envs=case["envs"],
-               density=case["density"])
-    rep.count("history:" + leaf_of(node)[0].kind + ":%d-objects" % (len(case["steps"]) + 1))
+               density=case["density"], feats=case.get("feats"))
+    rep.count("history:" + case.get("feats", "replay"))
+    rep.count("history:%d-objects" % (len(case["steps"]) + 1))
+    # which sampler finally decides the number of points
+    core, has_bdry = node, False
+    while core.kind in ("uservol", "translate", "rotate", "bdry"):
+        has_bdry = has_bdry or core.kind == "bdry"
+        core = core.kids[0]
+    rule = None
+    if core.kind in ("circle", "sphere", "interval", "par"):
+        rule = "ceil"
+    elif core.kind == "prod" and not has_bdry:
+        rule = "floor"
     try:
         parent = vto_tp(node, tp)
     except Exception:  # noqa
@@ -1496,11 +1553,13 @@ def check_history(case, rep):
                 rep.fail(f"{label}{' (second use)' if second else ''}: volume() = {got:.7g}, but the measure of the domain at "
                          f"{ {p: str(x[0]) for p, x in full.items()} } is {true:.7g} — after {len(objs)} evaluations of the same parent", inp)
                 return
-        if not rest and leaf_of(node)[0].kind in ("circle", "sphere", "interval", "par") and node.kind != "cut":
+        if not rest and rule:
             full = dict(fenv(case["envs"][0]))
             full.update(fenv(bound))
             m = measure(node, full)
-            want = int_candidates(d * m)
+            want = int_candidates(d * m, ceil=rule == "ceil")
+            if rule == "floor" and min(want) <= 0:
+                return
             with warnings.catch_warnings():
                 warnings.simplefilter("ignore")
                 try:
@@ -1509,7 +1568,7 @@ def check_history(case, rep):
                     rep.count("history:sampling-raised")
                     return
             if got not in want:
-                rep.fail(f"{label}: density sampling (d = {d}) returned {got} points; ceil(d*measure) = {sorted(want)} — after {len(objs)} "
+                rep.fail(f"{label}: density sampling (d = {d}) returned {got} points; {rule}(d*volume) = {sorted(want)}, volume = {m:.6g} — after {len(objs)} "
                          f"evaluations of the same parent", inp)
     # the EARLIER copies first, then the later ones, then the parent; then everything once more
     for second in (False, True):
@@ -1583,7 +1642,7 @@ def run(ctx, rep, cases=None):
             rep.case(dict(dom=cs["dom"], d=cs["density"], envs=cs["envs"]), True,
                      sample=dict(expression=vtokens(geomgen.from_json(cs["dom"])), density=cs["density"], object=cs["obj"],
                                  verdict="ok" if nf == len(rep.failures) else "fails"), kind=cs["mode"])
-        for i in range(ctx.scale(80, 800)):
+        for i in range(ctx.scale(240, 2400)):
             cs = make_history_case(ctx, 700000 + i)
             nf = len(rep.failures)
             check_history(cs, rep)
